@@ -2,6 +2,11 @@
 # Re-runs every stored seed (/verif/seeded/*/patch.diff) against the registered quick check of its
 # property and rewrites /verif/seeded/RESULTS.md. /repo is restored after each one.
 cd /verif
+# all seeds are applied to a scratch worktree of /repo's HEAD, never to /repo itself
+WT=/tmp/wt_run_seeds_$$
+git -C /repo worktree add -q --detach $WT HEAD || exit 2
+trap 'git -C /repo worktree remove --force $WT >/dev/null 2>&1' EXIT
+TIER=${TIER:-quick}
 out=/verif/seeded/RESULTS.md
 echo "| seed | property | quick check | first violated assertion |" > $out.tmp
 echo "|---|---|---|---|" >> $out.tmp
@@ -9,9 +14,9 @@ for d in seeded/*/; do
   id=$(basename $d)
   [ -n "${1:-}" ] && [[ "$id" != $1* ]] && { grep "^| $id " $out >> $out.tmp 2>/dev/null; continue; }
   prop=$(python3 -c "import json;print(json.load(open('$d/meta.json'))['property'])")
-  git -C /repo apply /verif/$d/patch.diff || { echo "| $id | $prop | PATCH DOES NOT APPLY | |" >> $out.tmp; continue; }
-  ./check $prop quick --no-evidence > /tmp/seedrun.log 2>&1; rc=$?
-  git -C /repo checkout -- .
+  git -C $WT apply /verif/$d/patch.diff || { echo "| $id | $prop | PATCH DOES NOT APPLY | |" >> $out.tmp; continue; }
+  ./check $prop $TIER --no-evidence --repo $WT > /tmp/seedrun.log 2>&1; rc=$?
+  git -C $WT checkout -q -- .
   msg=$(grep -m1 -A1 '^VIOLATION' /tmp/seedrun.log | tail -1 | sed 's/^ *//; s/|/\\|/g')
   case $rc in 1) v="DETECTED";; 0) v="missed";; *) v="inconclusive (exit $rc)"; msg=$(grep -m1 '^INCONCLUSIVE' /tmp/seedrun.log | sed 's/|/\\|/g');; esac
   echo "| $id | $prop | $v | $msg |" >> $out.tmp
